@@ -1,5 +1,1075 @@
-//! C14 — not built yet.
+//! C14 — hyphenating a horizontal list changes nothing unless a break is taken.
+//! Engine: BEX. Subject: `boxworks_hyphenate::Hyphenator::hyphenate` on lists produced by
+//! `boxworks_text::TextPreprocessorImpl` from text in cmr10 and in cmr10 with a synthetic lig/kern program.
+//! Oracle: `reftex::liang` (word finder TeX §894-899, Liang positions §919-931, minima §902/§923,
+//! "first odd position inside a reconstituted ligature" §909/§913-916). DESIGN.md §3 C14.
+
+use boxworks::ds::{self, Horizontal as H};
+use boxworks::{Hyphenator as _, TextPreprocessor};
+use boxworks_text as bwt;
+use reftex::liang::{self, ascii_lc, Liang, LkFont, LkOp, Node, TNode};
+use serde_json::{json, Value};
+use std::collections::HashMap;
+use tfm::ligkern::lang::{Instruction, Operation, PostLigOperation as P, Program};
+use tfm::ligkern::CompiledProgram;
+use tfm::{Char, FixWord};
+use vcore::{catch, Acc, Ctx, Level};
+
+// ---------------------------------------------------------------- fonts and lists
+
+struct Font {
+    tfm: tfm::File,
+    lkp: CompiledProgram,
+    /// the same lig/kern program for the model
+    model: LkFont,
+}
+
+/// The lig/kern program of a TFM file as (left, right) -> instruction, first match first (TeX §909).
+fn model_font(tfm: &tfm::File) -> LkFont {
+    let mut f = LkFont { rules: vec![], bchar: tfm.lig_kern_program.right_boundary_char.map(|c| c.0 as char) };
+    let mut prog = tfm.lig_kern_program.clone();
+    let mut starts: Vec<(Option<char>, u16)> = vec![];
+    if let Some(e) = prog.left_boundary_char_entrypoint {
+        starts.push((None, e));
+    }
+    let mut eps: Vec<(Char, u8)> = tfm.lig_kern_entrypoints().into_iter().collect();
+    eps.sort();
+    for (c, e) in eps {
+        if let Ok(e) = prog.unpack_entrypoint(e) {
+            starts.push((Some(c.0 as char), e));
+        }
+    }
+    for (left, e) in starts {
+        for (_, ins) in tfm.lig_kern_program.instructions_for_entrypoint(e) {
+            let op = match ins.operation {
+                Operation::Kern(k) => LkOp::Kern(k.to_scaled(tfm.header.design_size).0 as i64),
+                Operation::KernAtIndex(i) => LkOp::Kern(tfm.kerns.get(i as usize).map(|k| k.to_scaled(tfm.header.design_size).0 as i64).unwrap_or(0)),
+                Operation::Ligature { char_to_insert, post_lig_operation, .. } => LkOp::Lig { kind: tex_op_byte(post_lig_operation), ch: char_to_insert.0 as char },
+                Operation::EntrypointRedirect(..) => continue,
+            };
+            f.rules.push((left, ins.right_char.0 as char, op));
+        }
+    }
+    f
+}
+/// TeX's `op_byte` (§545): 4a+2b+c with a = cursor moves, b = keep left, c = keep right.
+fn tex_op_byte(p: P) -> u8 {
+    match p {
+        P::RetainNeitherMoveToInserted => 0,
+        P::RetainRightMoveToInserted => 1,
+        P::RetainRightMoveToRight => 5,
+        P::RetainLeftMoveNowhere => 2,
+        P::RetainLeftMoveToInserted => 6,
+        P::RetainBothMoveNowhere => 3,
+        P::RetainBothMoveToInserted => 7,
+        P::RetainBothMoveToRight => 11,
+    }
+}
+
+fn to_tnode(h: &H) -> TNode {
+    match h {
+        H::Char(c) => TNode::Char(c.char),
+        H::Ligature(l) => TNode::Lig { ch: l.char, orig: l.original_chars.chars().collect(), left: l.includes_left_boundary, right: l.includes_right_boundary },
+        H::Kern(k) if k.kind == ds::KernKind::Normal => TNode::Kern(k.width.0 as i64),
+        H::Discretionary(d) if is_inserted(h) => TNode::Disc { pre: d.pre_break.iter().map(dto_tnode).collect(), post: d.post_break.iter().map(dto_tnode).collect(), replace: d.replace_count as usize, at: 0 },
+        other => TNode::Other(to_node(other)),
+    }
+}
+fn dto_tnode(e: &ds::DiscretionaryElem) -> TNode {
+    match e {
+        ds::DiscretionaryElem::Char(c) => TNode::Char(c.char),
+        ds::DiscretionaryElem::Ligature(l) => TNode::Lig { ch: l.char, orig: l.original_chars.chars().collect(), left: l.includes_left_boundary, right: l.includes_right_boundary },
+        ds::DiscretionaryElem::Kern(k) => TNode::Kern(k.width.0 as i64),
+        _ => TNode::Other(Node::Other),
+    }
+}
+
+fn typeset(font: &Font, text: &str) -> Vec<H> {
+    let mut tp = bwt::TextPreprocessorImpl::new(bwt::Params::plain_tex_defaults());
+    tp.register_font(0, &font.tfm, font.lkp.clone());
+    tp.activate_font(0);
+    let mut list = vec![];
+    tp.add_text(text, &mut list);
+    list
+}
+
+fn show(l: &[H]) -> String {
+    l.iter().map(show1).collect::<Vec<_>>().join(" ")
+}
+fn show1(h: &H) -> String {
+    match h {
+        H::Char(c) => format!("{}", c.char),
+        H::Ligature(l) => format!("lig({}<-{:?}{}{})", l.char, &*l.original_chars, if l.includes_left_boundary { ",L" } else { "" }, if l.includes_right_boundary { ",R" } else { "" }),
+        H::Kern(k) => format!("kern({})", k.width.0),
+        H::Glue(_) => "glue".into(),
+        H::Discretionary(d) => format!("disc(pre=[{}] post=[{}] n={})", d.pre_break.iter().map(showd).collect::<Vec<_>>().join(" "), d.post_break.iter().map(showd).collect::<Vec<_>>().join(" "), d.replace_count),
+        other => other.to_string().replace('\n', " "),
+    }
+}
+fn showd(e: &ds::DiscretionaryElem) -> String {
+    match e {
+        ds::DiscretionaryElem::Char(c) => format!("{}", c.char),
+        ds::DiscretionaryElem::Ligature(l) => format!("lig({}<-{:?}{}{})", l.char, &*l.original_chars, if l.includes_left_boundary { ",L" } else { "" }, if l.includes_right_boundary { ",R" } else { "" }),
+        ds::DiscretionaryElem::Kern(k) => format!("kern({})", k.width.0),
+        _ => "?".into(),
+    }
+}
+
+fn letters_of(h: &H) -> Option<String> {
+    match h {
+        H::Char(c) => Some(c.char.to_string()),
+        H::Ligature(l) => Some(l.original_chars.to_string()),
+        H::Kern(k) if k.kind == ds::KernKind::Normal => Some(String::new()),
+        _ => None,
+    }
+}
+fn dletters(e: &ds::DiscretionaryElem) -> Option<String> {
+    match e {
+        ds::DiscretionaryElem::Char(c) => Some(c.char.to_string()),
+        ds::DiscretionaryElem::Ligature(l) => Some(l.original_chars.to_string()),
+        ds::DiscretionaryElem::Kern(k) if k.kind == ds::KernKind::Normal => Some(String::new()),
+        _ => None,
+    }
+}
+
+fn to_node(h: &H) -> Node {
+    match h {
+        H::Char(c) => Node::Char { c: c.char, font: c.font },
+        H::Ligature(l) => Node::Lig { orig: l.original_chars.chars().collect(), font: l.font, left_boundary: l.includes_left_boundary, right_boundary: l.includes_right_boundary },
+        H::Kern(k) => Node::Kern { normal: k.kind == ds::KernKind::Normal },
+        H::Whatsit(_) => Node::Whatsit,
+        H::Glue(_) => Node::Glue,
+        H::Penalty(_) => Node::Penalty,
+        H::Insertion(_) => Node::Ins,
+        H::Adjust(_) => Node::Adjust,
+        H::Mark(_) => Node::Mark,
+        H::HBox(_) | H::VBox(_) | H::Rule(_) | H::Discretionary(_) | H::Math(_) => Node::Other,
+    }
+}
+
+/// An inserted discretionary always carries the hyphen; the ones `add_word` puts after an explicit
+/// hyphen are empty (TeX §1039).
+fn is_inserted(h: &H) -> bool {
+    matches!(h, H::Discretionary(d) if !d.pre_break.is_empty() || !d.post_break.is_empty() || d.replace_count != 0)
+}
+
+// ---------------------------------------------------------------- the three invariants
+
+struct Verdict {
+    /// (invariant, expected, observed, note)
+    fail: Option<(&'static str, String, String, String)>,
+    words: usize,
+    expected_cuts: usize,
+    discs: usize,
+    /// full-list comparison with the transliterated TeX pass
+    vs_tex: &'static str,
+    /// the TeX model's own output satisfies invariant (1)
+    tex_keeps_list: bool,
+    /// invariant (1) fails, the D21b predicate holds on the case and the non-discretionary nodes equal
+    /// those of the model with the `ignore_left_context` switch
+    d21b: bool,
+    /// (3) fails on a word that follows a token without letters
+    d12_shape: bool,
+    out_of_domain: bool,
+}
+
+thread_local! {
+    /// memo of `hyf` per (language, lower-cased word): the plain TeX set has 4447 patterns
+    static MEMO: std::cell::RefCell<HashMap<(usize, Vec<char>), Vec<u8>>> = std::cell::RefCell::new(HashMap::new());
+}
+fn memo_hyf(lang: &Liang, wl: &[char]) -> Vec<u8> {
+    MEMO.with(|m| m.borrow_mut().entry((lang as *const Liang as usize, wl.to_vec())).or_insert_with(|| lang.hyf(wl)).clone())
+}
+
+fn same_nodes(a: &[TNode], b: &[TNode]) -> bool {
+    a.len() == b.len()
+        && a.iter().zip(b).all(|(x, y)| match (x, y) {
+            (TNode::Disc { pre: p1, post: q1, replace: r1, .. }, TNode::Disc { pre: p2, post: q2, replace: r2, .. }) => r1 == r2 && same_nodes(p1, p2) && same_nodes(q1, q2),
+            _ => x == y,
+        })
+}
+
+fn check_list(before: &[H], after: &[H], font: &Font, lang: &Liang, lhm: i32, rhm: i32, acc: &mut Acc) -> Verdict {
+    let mut v = Verdict { fail: None, words: 0, expected_cuts: 0, discs: 0, vs_tex: "", tex_keeps_list: true, d21b: false, d12_shape: false, out_of_domain: false };
+    // the TeX model on the same list (full differential: informational, and for the triage of failures)
+    let before_t: Vec<TNode> = before.iter().map(to_tnode).collect();
+    let after_t: Vec<TNode> = after.iter().map(to_tnode).collect();
+    // domain: a word directly followed by a ligature node whose original characters start with a
+    // non-letter, when the program has a rule for (last character or last letter of the word, that non-letter). TeX §898 then
+    // takes that character as `hyf_bchar` although it is already inside the following node, and the
+    // rebuilt word repeats the ligature: TeX itself changes the list there (the crate's TeX-verified
+    // tests right_boundary_char_override_3..6 record it). Outside the quantifier, skipped and counted.
+    {
+        let nodes: Vec<Node> = before.iter().map(to_node).collect();
+        let relaxed = liang::FinderParams { lc: &ascii_lc, uc_hyph: true, l_hyf: 0, r_hyf: 0, hyphen_char_ok: &|_| true };
+        for g in (0..nodes.len()).filter(|i| matches!(nodes[*i], Node::Glue)) {
+            if let Some(w) = liang::find_word(&nodes, g, &relaxed) {
+                let last = match &before_t[w.hb] {
+                    TNode::Char(c) => Some(*c),
+                    TNode::Lig { ch, .. } => Some(*ch),
+                    _ => None,
+                };
+                if let (Some(last), Some(Node::Lig { orig, .. })) = (last, nodes.get(w.hb + 1)) {
+                    if let Some(c) = orig.first().filter(|c| ascii_lc(**c).is_none()) {
+                        // (left = the character of the word's last node, or its last letter, which is
+                        // the left character again while the word is being rebuilt)
+                        if font.model.rules.iter().any(|r| (r.0 == Some(last) || r.0 == w.letters.last().copied()) && r.1 == *c) {
+                            v.out_of_domain = true;
+                            return v;
+                        }
+                    }
+                }
+            }
+        }
+    }
+    let (l_hyf, r_hyf) = (liang::norm_min(lhm as i64), liang::norm_min(rhm as i64));
+    let hyf_fn = |w: &[char]| memo_hyf(lang, w);
+    let pp_tex = liang::PassParams { hyf: &hyf_fn, lc: &ascii_lc, uc_hyph: true, l_hyf, r_hyf, hyphen_char: '-', always_left_boundary: false, always_rebuild: false, ignore_left_context: false };
+    let pp_d21 = liang::PassParams { hyf: &hyf_fn, lc: &ascii_lc, uc_hyph: true, l_hyf, r_hyf, hyphen_char: '-', always_left_boundary: true, always_rebuild: true, ignore_left_context: false };
+    let tex_after = liang::hyphenate_list(&before_t, &font.model, &pp_tex);
+    v.vs_tex = if same_nodes(&tex_after, &after_t) {
+        "= TeX model"
+    } else if same_nodes(&liang::hyphenate_list(&before_t, &font.model, &pp_d21), &after_t) {
+        "= model with the D21 switch"
+    } else {
+        "differs from both models"
+    };
+    v.tex_keeps_list = {
+        let stripped: Vec<&TNode> = tex_after.iter().filter(|n| !matches!(n, TNode::Disc { .. })).collect();
+        stripped.len() == before_t.len() && stripped.iter().zip(before_t.iter()).all(|(a, b)| **a == *b)
+    };
+    if !v.tex_keeps_list {
+        acc.count("tex_model_itself_changes_the_list");
+    }
+    // (1) deleting the inserted discretionaries gives back the original list node for node
+    let stripped: Vec<&H> = after.iter().filter(|h| !is_inserted(h)).collect();
+    let same = stripped.len() == before.len() && stripped.iter().zip(before.iter()).all(|(a, b)| **a == *b);
+    if !same {
+        // finding D21b: the character or ligature before the first letter is not used as left context
+        let relaxed = liang::FinderParams { lc: &ascii_lc, uc_hyph: true, l_hyf: 0, r_hyf: 0, hyphen_char_ok: &|_| true };
+        let nodes: Vec<Node> = before.iter().map(to_node).collect();
+        let applies = liang::words(&nodes, &relaxed).iter().any(|w| {
+            let ctx_char = match &before_t[w.ha] {
+                TNode::Char(c) => Some(*c),
+                TNode::Lig { ch, orig, left, .. } if !(orig.is_empty() && *left) => Some(*ch),
+                _ => None,
+            };
+            ctx_char.map(|c| font.model.rules.iter().any(|r| r.0 == Some(c) && r.1 == w.letters[0])).unwrap_or(false)
+        });
+        if applies {
+            let pp_adj = liang::PassParams { hyf: &hyf_fn, lc: &ascii_lc, uc_hyph: true, l_hyf, r_hyf, hyphen_char: '-', always_left_boundary: false, always_rebuild: true, ignore_left_context: true };
+            let adj = liang::hyphenate_list(&before_t, &font.model, &pp_adj);
+            let a: Vec<&TNode> = adj.iter().filter(|n| !matches!(n, TNode::Disc { .. })).collect();
+            let b: Vec<&TNode> = after_t.iter().filter(|n| !matches!(n, TNode::Disc { .. })).collect();
+            v.d21b = a == b;
+        }
+        let i = stripped.iter().zip(before.iter()).position(|(a, b)| **a != *b).unwrap_or(stripped.len().min(before.len()));
+        v.fail = Some(("I1", show(before), show(after), format!("deleting the inserted discretionaries does not give back the original list: first difference at node {i}: original {:?}, after {:?}", before.get(i).map(show1), stripped.get(i).map(|h| show1(h)))));
+        return v;
+    }
+    // position of every inserted discretionary relative to the original list
+    let mut discs: Vec<(usize, usize)> = vec![]; // (index in after, index in before of the node that follows)
+    let mut k = 0;
+    for (i, h) in after.iter().enumerate() {
+        if is_inserted(h) {
+            discs.push((i, k));
+        } else {
+            k += 1;
+        }
+    }
+    v.discs = discs.len();
+    // (2) letters are conserved at every inserted discretionary
+    for &(i, _) in &discs {
+        let H::Discretionary(d) = &after[i] else { unreachable!() };
+        let pre: Option<String> = d.pre_break.iter().map(dletters).collect();
+        let post: Option<String> = d.post_break.iter().map(dletters).collect();
+        let n = d.replace_count as usize;
+        let repl: Option<String> = if i + 1 + n <= after.len() { after[i + 1..i + 1 + n].iter().map(letters_of).collect() } else { None };
+        let (Some(mut pre), Some(post), Some(repl)) = (pre, post, repl) else {
+            v.fail = Some(("I2", "pre-break, post-break and the replaced nodes are characters, ligatures and font kerns".into(), show1(&after[i]), format!("discretionary at node {i} of {}", show(after))));
+            return v;
+        };
+        if !pre.ends_with('-') {
+            v.fail = Some(("I2", "pre-break material ends with the hyphen".into(), show1(&after[i]), format!("in {}", show(after))));
+            return v;
+        }
+        pre.pop();
+        if format!("{pre}{post}") != repl {
+            v.fail = Some(("I2", format!("letters {repl:?} (the {n} replaced nodes)"), format!("pre-break minus hyphen {pre:?} + post-break {post:?}"), format!("letters are not conserved at the discretionary at node {i} of {}", show(after))));
+            return v;
+        }
+    }
+    // (3) discretionaries sit at exactly the allowed positions of exactly the words TeX tries
+    let nodes: Vec<Node> = before.iter().map(to_node).collect();
+    let fp = liang::FinderParams { lc: &ascii_lc, uc_hyph: true, l_hyf, r_hyf, hyphen_char_ok: &|_| true };
+    let words = liang::words(&nodes, &fp);
+    v.words = words.len();
+    let mut claimed = vec![false; discs.len()];
+    for w in &words {
+        let first = w.ha + 1;
+        // letters before each node of the word, ligature spans; nodes between the glue and the first
+        // letter may be rebuilt together with the word (TeX §903: `ha`), they count backwards
+        let mut off = 0usize;
+        let mut starts: HashMap<usize, i64> = HashMap::new();
+        {
+            let mut back = 0i64;
+            for k in (w.glue + 1..first).rev() {
+                back -= match &nodes[k] {
+                    Node::Char { .. } => 1,
+                    Node::Lig { orig, .. } => orig.len() as i64,
+                    _ => 0,
+                };
+                starts.insert(k, back);
+            }
+        }
+        let mut ligs: Vec<(usize, usize)> = vec![];
+        for (k, nd) in nodes.iter().enumerate().take(w.hb + 1).skip(first) {
+            starts.insert(k, off as i64);
+            match nd {
+                Node::Char { .. } => off += 1,
+                Node::Lig { orig, .. } => {
+                    if orig.len() >= 2 {
+                        ligs.push((off, off + orig.len()));
+                    }
+                    off += orig.len();
+                }
+                _ => {}
+            }
+        }
+        let wl: Vec<char> = w.letters.iter().map(|c| ascii_lc(*c).unwrap()).collect();
+        let hyf = memo_hyf(lang, &wl);
+        let liang_pos: Vec<usize> = (l_hyf..wl.len()).filter(|j| *j + r_hyf <= wl.len() && hyf[*j] % 2 == 1).collect();
+        // the positions TeX can offer: the discretionaries of the transliterated pass (§903-918)
+        let expected: Vec<usize> = match liang::hyphenate_word(&before_t, w, &font.model, &pp_tex) {
+            None => vec![],
+            Some((_, nodes)) => {
+                let mut at: Vec<usize> = nodes.iter().filter_map(|n| if let TNode::Disc { at, .. } = n { Some(*at) } else { None }).collect();
+                at.sort();
+                at
+            }
+        };
+        if expected != liang::first_odd_per_ligature(&liang_pos, &ligs) {
+            acc.count("tex_pass_offers_other_positions_than_the_first_odd_per_ligature_rule");
+        }
+        // vacuity counters (from the case and the model)
+        if expected.len() < liang_pos.len() {
+            acc.count("second_odd_position_inside_one_ligature");
+        }
+        if expected.iter().any(|p| ligs.iter().any(|(a, b)| a < p && p < b)) {
+            acc.count("cut_strictly_inside_a_ligature");
+        }
+        if w.letters.len() == 63 {
+            acc.count("word_cut_off_at_63_letters");
+        }
+        if w.ha != w.glue && !expected.is_empty() {
+            acc.count("word_preceded_by_non_letters");
+        }
+        let mut after_letterless = false;
+        if let Some(pg) = prev_glue_before(&nodes, w.glue) {
+            if !nodes[pg + 1..w.glue].iter().any(|n| node_has_letter(n)) && !expected.is_empty() {
+                acc.count("word_after_letterless_token");
+                after_letterless = true;
+            }
+        }
+        if w.letters.iter().any(|c| c.is_ascii_uppercase()) && !expected.is_empty() {
+            acc.count("word_with_capitals_hyphenated");
+        }
+        let mut observed: Vec<usize> = vec![];
+        for (di, &(i, k)) in discs.iter().enumerate() {
+            if k <= w.glue || k > w.hb {
+                continue;
+            }
+            claimed[di] = true;
+            let H::Discretionary(d) = &after[i] else { unreachable!() };
+            let mut pre: String = d.pre_break.iter().filter_map(dletters).collect();
+            pre.pop();
+            let at = starts[&k] + pre.chars().count() as i64;
+            if at < 0 {
+                v.fail = Some(("I3", "a break inside the word".into(), format!("a discretionary that breaks before the word's first letter: {}", show1(&after[i])), format!("in {}", show(after))));
+                return v;
+            }
+            observed.push(at as usize);
+            // the replaced nodes must belong to the word
+            if k + d.replace_count as usize > w.hb + 1 {
+                v.fail = Some(("I3", format!("replaced nodes inside the word (nodes {first}..={})", w.hb), format!("discretionary before node {k} replaces {} nodes", d.replace_count), format!("in {}", show(after))));
+                return v;
+            }
+        }
+        v.expected_cuts += expected.len();
+        if observed != expected {
+            v.d12_shape = after_letterless && observed.is_empty();
+            let word: String = w.letters.iter().collect();
+            v.fail = Some(("I3", format!("word {word:?}: hyphens after letters {expected:?}"), format!("{observed:?}"), format!("Liang positions within the minima ({l_hyf},{r_hyf}): {liang_pos:?}; TeX's pass (§903-918) offers {expected:?}; list after: {}", show(after))));
+            return v;
+        }
+    }
+    if let Some(di) = claimed.iter().position(|c| !c) {
+        let (i, k) = discs[di];
+        v.fail = Some(("I3", "no discretionary outside the words TeX tries (TeX §894-899)".into(), format!("{} before original node {k}", show1(&after[i])), format!("words found by the model: {:?}; list after: {}", words.iter().map(|w| w.letters.iter().collect::<String>()).collect::<Vec<_>>(), show(after))));
+    }
+    v
+}
+
+fn prev_glue_before(nodes: &[Node], g: usize) -> Option<usize> {
+    (0..g).rev().find(|i| matches!(nodes[*i], Node::Glue))
+}
+fn node_has_letter(n: &Node) -> bool {
+    match n {
+        Node::Char { c, .. } => ascii_lc(*c).is_some(),
+        Node::Lig { orig, .. } => orig.iter().any(|c| ascii_lc(*c).is_some()),
+        _ => false,
+    }
+}
+
+// ---------------------------------------------------------------- one case
+
+#[derive(Clone, Debug)]
+struct Case {
+    /// "" = cmr10's own program, else the compact text of the synthetic program
+    program: Vec<Rule>,
+    text: String,
+    /// "plain" or "every"
+    patterns: String,
+    lhm: i32,
+    rhm: i32,
+}
+impl Case {
+    fn json(&self) -> Value {
+        json!({"kind": "list", "program": self.program.iter().map(|r| r.json()).collect::<Vec<_>>(), "program_text": self.program.iter().map(|r| r.compact()).collect::<Vec<_>>(), "text": self.text, "patterns": self.patterns, "lhm": self.lhm, "rhm": self.rhm})
+    }
+}
+
+struct Env {
+    cmr10: tfm::File,
+    plain: Liang,
+    every: Liang,
+    every_ab: Liang,
+}
+
+fn real_hyphenator(env: &Env, font: &Font, patterns: &str, lhm: i32, rhm: i32) -> boxworks_hyphenate::Hyphenator {
+    let _ = env;
+    let hyphenator = match patterns {
+        "plain" => hyphenate::Hyphenator::plain_tex_en_us(),
+        "every" => {
+            let mut h = hyphenate::Hyphenator::default();
+            h.load_patterns(&every_position_patterns());
+            h
+        }
+        _ => {
+            let mut h = hyphenate::Hyphenator::default();
+            h.load_patterns("a1 b1");
+            h
+        }
+    };
+    boxworks_hyphenate::Hyphenator { lig_kern_program: font.lkp.clone(), hyphenator, left_hyphen_min: lhm, right_hyphen_min: rhm }
+}
+fn every_position_patterns() -> String {
+    ('a'..='z').map(|c| format!("{c}1 ")).collect()
+}
+
+/// Judge one list. Returns the class label of a failure (for the caller's triage) or None.
+fn judge(idx: u64, case: &Case, font: &Font, hy: &boxworks_hyphenate::Hyphenator, lang: &Liang, acc: &mut Acc) {
+    acc.eval();
+    let before = match catch(|| typeset(font, &case.text)) {
+        Ok(l) => l,
+        Err(p) => {
+            // not the subject of this property (C05/C12 look at the text preprocessor); count and move on
+            acc.skipped += 1;
+            acc.class(&format!("typesetting panicked: {}", p.site()));
+            return;
+        }
+    };
+    let after = match catch(|| {
+        let mut l = before.clone();
+        hy.hyphenate(&mut l);
+        l
+    }) {
+        Ok(l) => l,
+        Err(p) => {
+            acc.class(&format!("panic at {}", p.site()));
+            witness(&format!("panic at {}", p.site()), idx, || json!({"case": case.json(), "original": show(&before), "panic": p.describe()}));
+            acc.fail(idx, case.json(), "a hyphenated list", p.describe(), format!("hyphenate panicked on {}", show(&before)));
+            return;
+        }
+    };
+    let v = check_list(&before, &after, font, lang, case.lhm, case.rhm, acc);
+    if v.out_of_domain {
+        acc.skipped += 1;
+        acc.count("skipped_word_followed_by_punctuation_ligature");
+        acc.class("skipped: word followed by a ligature that starts with a non-letter");
+        return;
+    }
+    if v.expected_cuts > 0 {
+        acc.nontrivial();
+    }
+    match v.fail {
+        None => {
+            acc.class(&format!("ok words={} cuts={} [{}]", v.words.min(3), v.discs.min(12), v.vs_tex));
+            if v.vs_tex != "= TeX model" {
+                // outside the property: the three invariants hold, but the discretionaries are not TeX's
+                acc.count("invariants_hold_but_list_differs_from_tex_pass");
+                witness("outside the property: invariants hold, the list differs from the transliterated TeX pass", idx, || json!({"case": case.json(), "original": show(&before), "after": show(&after), "tex_pass": tex_pass_text(&before, font, lang, case)}));
+            }
+        }
+        Some(_) if v.d21b => {
+            acc.class("I1 fails: D21b (left context before the first letter ignored)");
+            acc.known("D21b", idx, || json!({"case": case.json(), "original": show(&before), "after": show(&after), "adjusted_model": "TeX §903 without hu[0]: a character/ligature node before the first letter is not used as left context"}));
+        }
+        Some((inv, expected, observed, note)) => {
+            // a label for the reader (the verdict does not depend on it)
+            let label = match inv {
+                "I1" if only_ligature_flags_differ(&before, &after) => "I1: a ligature's boundary flag changes (D12b shape)",
+                "I1" if v.vs_tex == "= model with the D21 switch" => "I1: = TeX's pass with left-boundary processing forced on (D21)",
+                "I1" if case.program.iter().any(|r| r.left == Sym::LB) => "I1: program has a left-boundary rule (D21 shape)",
+                "I1" => "I1: other",
+                "I2" => "I2",
+                _ if v.d12_shape => "I3: a word after a letterless token is not hyphenated (D12 shape)",
+                _ => "I3: other",
+            };
+            acc.class(&format!("{label} [{}]", v.vs_tex));
+            witness(label, idx, || json!({"case": case.json(), "original": show(&before), "after": show(&after), "expected": expected, "observed": observed}));
+            acc.fail(idx, case.json(), expected, observed, format!("{inv}: {note}"));
+        }
+    }
+}
+
+fn tex_pass_text(before: &[H], font: &Font, lang: &Liang, case: &Case) -> String {
+    let bt: Vec<TNode> = before.iter().map(to_tnode).collect();
+    let hyf_fn = |w: &[char]| memo_hyf(lang, w);
+    let pp = liang::PassParams { hyf: &hyf_fn, lc: &ascii_lc, uc_hyph: true, l_hyf: liang::norm_min(case.lhm as i64), r_hyf: liang::norm_min(case.rhm as i64), hyphen_char: '-', always_left_boundary: false, always_rebuild: false, ignore_left_context: false };
+    liang::render(&liang::hyphenate_list(&bt, &font.model, &pp))
+}
+
+fn only_ligature_flags_differ(before: &[H], after: &[H]) -> bool {
+    let strip = |h: &H| -> H {
+        match h {
+            H::Ligature(l) => H::Ligature(ds::Ligature { includes_left_boundary: false, includes_right_boundary: false, ..l.clone() }),
+            o => o.clone(),
+        }
+    };
+    let a: Vec<H> = after.iter().filter(|h| !is_inserted(h)).map(strip).collect();
+    let b: Vec<H> = before.iter().map(strip).collect();
+    a == b
+}
+
+/// First witness (smallest enumeration index) of every failure label, for the evidence file.
+static WITNESSES: std::sync::Mutex<std::collections::BTreeMap<String, (u64, u64, Value)>> = std::sync::Mutex::new(std::collections::BTreeMap::new());
+fn witness(label: &str, idx: u64, f: impl FnOnce() -> Value) {
+    let mut m = WITNESSES.lock().unwrap();
+    match m.get_mut(label) {
+        Some(e) => {
+            e.0 += 1;
+            if idx < e.1 {
+                e.1 = idx;
+                e.2 = f();
+            }
+        }
+        None => {
+            m.insert(label.to_string(), (1, idx, f()));
+        }
+    }
+}
+
+// ---------------------------------------------------------------- synthetic lig/kern programs
+
+#[derive(Clone, Copy, PartialEq, Eq, Debug, Hash, PartialOrd, Ord)]
+enum Sym {
+    LB,
+    C(u8),
+    RB,
+}
+#[derive(Clone, Copy, Debug, PartialEq)]
+enum Op {
+    Kern(i32),
+    Lig(u8, u8), // inserted char, index into POSTLIG
+}
+#[derive(Clone, Copy, Debug, PartialEq)]
+struct Rule {
+    left: Sym,
+    right: Sym,
+    op: Op,
+}
+const POSTLIG: [P; 8] = [P::RetainNeitherMoveToInserted, P::RetainRightMoveToInserted, P::RetainRightMoveToRight, P::RetainLeftMoveNowhere, P::RetainLeftMoveToInserted, P::RetainBothMoveNowhere, P::RetainBothMoveToInserted, P::RetainBothMoveToRight];
+const POSTLIG_PL: [&str; 8] = ["LIG", "LIG/", "LIG/>", "/LIG", "/LIG>", "/LIG/", "/LIG/>", "/LIG/>>"];
+/// the right boundary character of the synthetic fonts
+const RBC: u8 = b'c';
+
+impl Rule {
+    fn json(&self) -> Value {
+        let s = |s: Sym| match s {
+            Sym::LB => "LB".to_string(),
+            Sym::RB => "RB".to_string(),
+            Sym::C(c) => (c as char).to_string(),
+        };
+        match self.op {
+            Op::Kern(k) => json!({"l": s(self.left), "r": s(self.right), "kern": k}),
+            Op::Lig(z, p) => json!({"l": s(self.left), "r": s(self.right), "lig": (z as char).to_string(), "op": p}),
+        }
+    }
+    fn from_json(v: &Value) -> Rule {
+        let s = |x: &Value| match x.as_str().unwrap_or("") {
+            "LB" => Sym::LB,
+            "RB" => Sym::RB,
+            o => Sym::C(o.as_bytes()[0]),
+        };
+        let op = if v["kern"].is_i64() { Op::Kern(v["kern"].as_i64().unwrap() as i32) } else { Op::Lig(v["lig"].as_str().unwrap().as_bytes()[0], v["op"].as_u64().unwrap() as u8) };
+        Rule { left: s(&v["l"]), right: s(&v["r"]), op }
+    }
+    fn compact(&self) -> String {
+        let s = |s: Sym| match s {
+            Sym::LB => "boundary".to_string(),
+            Sym::RB => format!("boundary(={})", RBC as char),
+            Sym::C(c) => (c as char).to_string(),
+        };
+        match self.op {
+            Op::Kern(k) => format!("({} {}) KRN {}", s(self.left), s(self.right), k),
+            Op::Lig(z, p) => format!("({} {}) {} {}", s(self.left), s(self.right), POSTLIG_PL[p as usize], z as char),
+        }
+    }
+}
+
+fn build_program(rules: &[Rule]) -> (Program, HashMap<Char, u16>) {
+    let mut instrs: Vec<Instruction> = vec![];
+    let mut eps = HashMap::new();
+    let mut lb = None;
+    let mut lefts: Vec<Sym> = rules.iter().map(|r| r.left).collect();
+    lefts.sort();
+    lefts.dedup();
+    let rbc = if rules.iter().any(|r| r.right == Sym::RB) { Some(RBC) } else { None };
+    for l in lefts {
+        let start = instrs.len() as u16;
+        match l {
+            Sym::LB => lb = Some(start),
+            Sym::C(c) => {
+                eps.insert(Char(c), start);
+            }
+            Sym::RB => unreachable!(),
+        }
+        let rs: Vec<&Rule> = rules.iter().filter(|r| r.left == l).collect();
+        for (i, r) in rs.iter().enumerate() {
+            let right_char = match r.right {
+                Sym::C(c) => Char(c),
+                Sym::RB => Char(RBC),
+                Sym::LB => unreachable!(),
+            };
+            let operation = match r.op {
+                Op::Kern(k) => Operation::Kern(FixWord(k)),
+                Op::Lig(z, p) => Operation::Ligature { char_to_insert: Char(z), post_lig_operation: POSTLIG[p as usize], post_lig_tag_invalid: false },
+            };
+            instrs.push(Instruction { next_instruction: if i + 1 < rs.len() { Some(0) } else { None }, right_char, operation });
+        }
+    }
+    (Program { instructions: instrs, left_boundary_char_entrypoint: lb, right_boundary_char: rbc.map(Char), passthrough: Default::default() }, eps)
+}
+
+/// `None` when the program has an infinite loop (PLtoTF would reject the font).
+fn synthetic_font(env: &Env, rules: &[Rule]) -> Option<Font> {
+    let mut tfm = env.cmr10.clone();
+    if !rules.is_empty() {
+        let (prog, eps) = build_program(rules);
+        tfm.replace_lig_kern_program(prog, eps);
+    }
+    let (lkp, errs) = CompiledProgram::compile_from_tfm_file(&mut tfm);
+    if !errs.is_empty() {
+        return None;
+    }
+    let model = model_font(&tfm);
+    Some(Font { tfm, lkp, model })
+}
+
+fn all_rules(kern: i32, inserted: &[u8], kinds: &[u8]) -> Vec<Rule> {
+    let mut ops = vec![Op::Kern(kern)];
+    for z in inserted {
+        for p in kinds {
+            ops.push(Op::Lig(*z, *p));
+        }
+    }
+    let mut out = vec![];
+    for left in [Sym::LB, Sym::C(b'a'), Sym::C(b'b'), Sym::C(b'-')] {
+        for right in [Sym::C(b'a'), Sym::C(b'b'), Sym::C(b'-'), Sym::RB] {
+            for op in &ops {
+                out.push(Rule { left, right, op: *op });
+            }
+        }
+    }
+    out
+}
+
+// ---------------------------------------------------------------- main
+
+fn long_words() -> Vec<String> {
+    let d7 = "difficult".repeat(7); // 63 letters
+    let p61 = format!("{}shuffle", "difficult".repeat(6)); // 61 letters
+    vec![d7.clone(), format!("{d7}y"), format!("{d7}ly"), format!("{p61}ffing"), format!("{p61}office"), format!("{}fi", "office".repeat(10) + "a")]
+}
+
 fn main() {
-    eprintln!("c14: check not built yet");
-    std::process::exit(2);
+    let mut ctx = Ctx::new("C14", Level::Exploration);
+    ctx.assume("lists are what boxworks_text::TextPreprocessorImpl::add_text produces from text in one font (cmr10, or cmr10 with a synthetic lig/kern program); lists built by other means (several fonts, explicit kerns, math, boxes) are not explored");
+    ctx.assume("\\uchyph > 0, \\hyphenchar = '-', \\lccode = plain TeX's restricted to ASCII: the values the crate hard-codes");
+    ctx.assume("'exactly the Liang positions' is read with TeX's own restriction: the positions expected in a word are those at which the transliterated pass (tex.web §902-918: reconstitute, hyphen_passed, the synchronisation of §916) creates a discretionary; inside one reconstituted ligature chain that is only the first odd position (raffish -> raf-fish, never raff-ish)");
+    ctx.assume("the pass model reftex::liang::hyphenate_list is a transliteration of tex.web §894-918 written without a TeX binary; it is bound to TeX by the crate's 33 TeX-verified test expectations, which it reproduces node for node (a run refuses to start otherwise)");
+    ctx.assume("synthetic programs have rules over {left boundary, a, b, -} x {a, b, -, right boundary}. Outside the quantifier (skipped and counted): a word directly followed by a ligature node that starts with a non-letter when the program has a rule for (last character or last letter of the word, that non-letter) - TeX §898 then uses that character as hyf_bchar although it is already inside the following node and itself repeats the ligature (the crate's TeX-verified tests right_boundary_char_override_3..6 record this)");
+    ctx.assume("a list in which the invariants hold but whose discretionaries differ from the transliterated TeX pass in their kerns/ligatures is counted (invariants_hold_but_list_differs_from_tex_pass), not judged: the property speaks about letters and positions only");
+
+    let repo = std::env::var("VERIF_REPO").unwrap_or("/repo".into());
+    let tfm_bytes = std::fs::read(format!("{repo}/crates/tfm/corpus/computer-modern/cmr10.tfm")).unwrap_or_default();
+    let Some(cmr10) = tfm::File::deserialize(&tfm_bytes).0.ok() else {
+        ctx.machinery_error(format!("cannot read cmr10.tfm under {repo}"));
+        ctx.finish("");
+    };
+    let mut plain = Liang::new();
+    let pp = std::fs::read_to_string(format!("{repo}/crates/hyphenate/src/plain_tex_patterns.txt")).unwrap_or_default();
+    let pe = std::fs::read_to_string(format!("{repo}/crates/hyphenate/src/plain_tex_exceptions.txt")).unwrap_or_default();
+    let errs = plain.add_patterns(&pp, &ascii_lc);
+    for e in pe.split_whitespace() {
+        plain.add_exception(e, &ascii_lc);
+    }
+    if plain.patterns.len() < 4000 || !errs.is_empty() {
+        ctx.machinery_error(format!("cannot load plain TeX's patterns from {repo}"));
+    }
+    let mut every = Liang::new();
+    every.add_patterns(&every_position_patterns(), &ascii_lc);
+    let mut every_ab = Liang::new();
+    every_ab.add_patterns("a1 b1", &ascii_lc);
+    let env = Env { cmr10, plain, every, every_ab };
+
+    if let Some((_fam, case)) = ctx.replay_case() {
+        let mut acc = Acc::default();
+        let case = if case["case"].is_object() { case["case"].clone() } else { case };
+        let c = Case {
+            program: case["program"].as_array().map(|a| a.iter().map(Rule::from_json).collect()).unwrap_or_default(),
+            text: case["text"].as_str().unwrap_or("").to_string(),
+            patterns: case["patterns"].as_str().unwrap_or("plain").to_string(),
+            lhm: case["lhm"].as_i64().unwrap_or(2) as i32,
+            rhm: case["rhm"].as_i64().unwrap_or(3) as i32,
+        };
+        let font = synthetic_font(&env, &c.program).expect("program of a replay case compiles");
+        let hy = real_hyphenator(&env, &font, &c.patterns, c.lhm, c.rhm);
+        let lang = match c.patterns.as_str() {
+            "plain" => &env.plain,
+            "every" => &env.every,
+            _ => &env.every_ab,
+        };
+        judge(0, &c, &font, &hy, lang, &mut acc);
+        let before = typeset(&font, &c.text);
+        eprintln!("original list: {}", show(&before));
+        let mut after = before.clone();
+        if catch(|| hy.hyphenate(&mut after)).is_ok() {
+            eprintln!("after hyphenate: {}", show(&after));
+        }
+        ctx.finish_replay(acc);
+    }
+
+    self_validate(&mut ctx, &env);
+
+    // ---------------- F1: cmr10, vocabulary x templates x pattern sets x minima
+    let vocab: Vec<String> = {
+        let mut v: Vec<String> = ["difficult", "office", "shuffling", "waffle", "affliction", "fifty", "efficient", "Contents", "hyphenation", "a", "fi", "baffling", "stiffly", "chaff", "flyleaf", "halfback", "shelfful", "x-y", "AVATAR", "e.g.", "offline", "fluffiest", "raffish", "offhand", "OFFICE", "Office", "well-known", "don't", "fjord", "afford", "cliffs", "fflfi", "table", "project", "association", "typewriter", "WAVY", "ff", "3.0", "--", "``office''"].iter().map(|s| s.to_string()).collect();
+        v.extend(long_words());
+        v
+    };
+    let mins: Vec<(i32, i32)> = vec![(1, 1), (1, 2), (1, 3), (2, 1), (2, 2), (2, 3), (3, 1), (3, 2), (3, 3)];
+    let cmr = Font { tfm: env.cmr10.clone(), lkp: CompiledProgram::compile_from_tfm_file(&mut env.cmr10.clone()).0, model: model_font(&env.cmr10) };
+    // one real hyphenator per (pattern set, minima): hyphenate(&self) is stateless
+    let mut hys: Vec<(String, i32, i32, boxworks_hyphenate::Hyphenator)> = vec![];
+    for ps in ["plain", "every"] {
+        for &(l, r) in &mins {
+            hys.push((ps.to_string(), l, r, real_hyphenator(&env, &cmr, ps, l, r)));
+        }
+    }
+    for (l, r) in [(0, 0), (-1, 5), (64, 1), (2, 62)] {
+        hys.push(("every".to_string(), l, r, real_hyphenator(&env, &cmr, "every", l, r)));
+    }
+    {
+        let templates: Vec<&str> = vec!["x {}", "x {}.", "x {}, y", "3.0 {}", "x 3.0 {}", "({})", "x ({})", "x {} {}", "{} {}", "x ``{}''", "x {}: ; {}", "x --- {}"];
+        let (nv, nt, nh) = (vocab.len() as u64, templates.len() as u64, hys.len() as u64);
+        let (vocab_r, templates_r, hys_r, env_r, cmr_r) = (&vocab, &templates, &hys, &env, &cmr);
+        ctx.family("cmr10-one-word", &format!("cmr10: {nv} words (every cmr10 ligature at a hyphen position, capitals, explicit hyphens, punctuation, 63/64/65-letter words, a ligature across the 63-letter limit) x {nt} templates (x W | x W. | x W, y | 3.0 W | x 3.0 W | (W) | x (W) | x W W | W W | x ``W'' | x W: ; W | x --- W) x (plain TeX patterns, 'every position' patterns) x minima {{1,2,3}}^2 (+ 4 out-of-range settings)"), nv * nt * nh, |idx, acc| {
+            let d = vcore::digits(idx, &[nv, nt, nh]);
+            let w = &vocab_r[d[0] as usize];
+            let (ps, l, r, hy) = &hys_r[d[2] as usize];
+            let case = Case { program: vec![], text: templates_r[d[1] as usize].replace("{}", w), patterns: ps.clone(), lhm: *l, rhm: *r };
+            judge(idx, &case, cmr_r, hy, if ps == "plain" { &env_r.plain } else { &env_r.every }, acc);
+            if idx % 4999 == 7 {
+                acc.sample(idx, || case.json());
+            }
+        });
+    }
+    // ---------------- F2: cmr10, every pair of vocabulary words
+    {
+        let short: Vec<&String> = vocab.iter().filter(|w| w.len() <= 16).collect();
+        let sel: Vec<usize> = if ctx.quick() { vec![1, 5, 9, 14] } else { (0..hys.len()).collect() };
+        let (nv, nh) = (short.len() as u64, sel.len() as u64);
+        let (short_r, hys_r, env_r, cmr_r, sel_r) = (&short, &hys, &env, &cmr, &sel);
+        ctx.family("cmr10-two-words", &format!("cmr10: 'x W1 W2' for every ordered pair of the {nv} words of at most 16 characters x {nh} (pattern set, minima) settings"), nv * nv * nh, |idx, acc| {
+            let d = vcore::digits(idx, &[nv, nv, nh]);
+            let (ps, l, r, hy) = &hys_r[sel_r[d[2] as usize]];
+            let case = Case { program: vec![], text: format!("x {} {}", short_r[d[0] as usize], short_r[d[1] as usize]), patterns: ps.clone(), lhm: *l, rhm: *r };
+            judge(idx, &case, cmr_r, hy, if ps == "plain" { &env_r.plain } else { &env_r.every }, acc);
+        });
+    }
+    // ---------------- F3/F4/F5: synthetic programs
+    let all_kinds: Vec<u8> = (0..8).collect();
+    let inserted: Vec<u8> = ctx.pick(vec![b'a', b'b', b'c'], vec![b'a', b'b', b'c', b'-']);
+    let rules1 = all_rules(65536, &inserted, &all_kinds);
+    let rules2 = all_rules(2 * 65536, &inserted, &all_kinds);
+    let words_ab = |maxlen: usize| -> Vec<String> {
+        let mut v = vec![];
+        for len in 1..=maxlen {
+            for m in 0..(1u32 << len) {
+                v.push((0..len).map(|i| if m >> i & 1 == 1 { 'b' } else { 'a' }).collect::<String>());
+            }
+        }
+        v
+    };
+    let synth_templates: Vec<&str> = vec!["x {}", "x {}.", "x {}-a", "x -{}", "x .{}", "{} {}", "x . {}"];
+    let ins_text = |v: &[u8]| v.iter().map(|c| (*c as char).to_string()).collect::<Vec<_>>().join("|");
+    {
+        let words = words_ab(4);
+        let wide = all_rules(65536, &[b'a', b'b', b'c', b'-'], &all_kinds);
+        let mut programs: Vec<Vec<Rule>> = vec![vec![]];
+        programs.extend(wide.iter().map(|r| vec![*r]));
+        let smins: Vec<(i32, i32)> = vec![(1, 1), (2, 1), (1, 2)];
+        let (np, words_r, programs_r, env_r, st, smins_r) = (programs.len() as u64, &words, &programs, &env, &synth_templates, &smins);
+        ctx.family_ranges("synthetic-one-rule", &format!("cmr10 with its lig/kern program replaced by the empty program or one of the {} single rules over {{left boundary,a,b,-}} x {{a,b,-,right boundary(=c)}} x {{kern, 8 ligature kinds inserting a|b|c|-}} x all {} words over {{a,b}} of length 1..4 x {} templates (x W | x W. | x W-a | x -W | x .W | W W | x . W) x 'every position' patterns x minima (1,1),(2,1),(1,2)", np - 1, words.len(), st.len()), np, |r, acc| {
+            for pi in r {
+                run_synthetic(pi, &programs_r[pi as usize], words_r, st, smins_r, env_r, acc);
+            }
+        });
+    }
+    {
+        let words = words_ab(ctx.pick(3, 4));
+        let st: Vec<&str> = if ctx.quick() { vec!["x {}", "x {}.", "x -{}", "x {}-a"] } else { synth_templates.clone() };
+        let smins: Vec<(i32, i32)> = ctx.pick(vec![(1, 1)], vec![(1, 1), (2, 2), (1, 2)]);
+        let n1 = rules1.len() as u64;
+        let (words_r, env_r, st_r, smins_r, rules1_r, rules2_r) = (&words, &env, &st, &smins, &rules1, &rules2);
+        ctx.family("synthetic-two-rules", &format!("every unordered pair of the {n1} single rules (ligatures inserting {}) with different (left,right) (index space {n1}^2) x all {} words over {{a,b}} of length 1..{} x {} templates x 'every position' patterns x {} minima setting(s)", ins_text(&inserted), words.len(), ctx.pick(3, 4), st.len(), smins.len()), n1 * n1, |idx, acc| {
+            let (i, j) = (idx / n1, idx % n1);
+            if j <= i {
+                return;
+            }
+            let (a, b) = (rules1_r[i as usize], rules2_r[j as usize]);
+            if a.left == b.left && a.right == b.right {
+                acc.skipped += 1;
+                return;
+            }
+            run_synthetic(idx, &[a, b], words_r, st_r, smins_r, env_r, acc);
+        });
+    }
+    if !ctx.quick() {
+        // three rules over a reduced rule set
+        let kinds: Vec<u8> = vec![0, 1, 2, 4, 6];
+        let r1 = all_rules(65536, &[b'a', b'c'], &kinds);
+        let r2 = all_rules(2 * 65536, &[b'a', b'c'], &kinds);
+        let r3 = all_rules(3 * 65536, &[b'a', b'c'], &kinds);
+        let words = words_ab(3);
+        let st: Vec<&str> = vec!["x {}", "x {}.", "x -{}", "x {}-a"];
+        let smins: Vec<(i32, i32)> = vec![(1, 1)];
+        let n = r1.len() as u64;
+        let (words_r, env_r, st_r, smins_r, r1, r2, r3) = (&words, &env, &st, &smins, &r1, &r2, &r3);
+        ctx.family("synthetic-three-rules", &format!("every unordered triple of {n} rules (kern, LIG, LIG/, LIG/>, /LIG>, /LIG/> inserting a|c) with pairwise different (left,right) (index space {n}^3) x all words over {{a,b}} of length 1..3 x 4 templates x 'every position' patterns x minima (1,1)"), n * n * n, |idx, acc| {
+            let (i, j, k) = (idx / (n * n), idx / n % n, idx % n);
+            if !(i < j && j < k) {
+                return;
+            }
+            let (a, b, c) = (r1[i as usize], r2[j as usize], r3[k as usize]);
+            let key = |r: &Rule| (r.left, r.right);
+            if key(&a) == key(&b) || key(&a) == key(&c) || key(&b) == key(&c) {
+                acc.skipped += 1;
+                return;
+            }
+            run_synthetic(idx, &[a, b, c], words_r, st_r, smins_r, env_r, acc);
+        });
+    }
+
+    ctx.require("cut_strictly_inside_a_ligature", "an expected hyphen falls strictly inside a ligature of the original list");
+    ctx.require("second_odd_position_inside_one_ligature", "two Liang positions inside one ligature (TeX offers only the first)");
+    ctx.require("word_cut_off_at_63_letters", "a word of more than 63 letters is tried with its first 63 letters");
+    ctx.require("word_preceded_by_non_letters", "a hyphenated word whose first letter is preceded by non-letter nodes after the glue");
+    ctx.require("word_after_letterless_token", "a hyphenated word that follows a token without letters (the D12 shape)");
+    ctx.require("word_with_capitals_hyphenated", "a word with upper-case letters that has hyphens");
+    ctx.require("synthetic_left_boundary_rule_fired", "a left-boundary rule changed the original list");
+    ctx.require("synthetic_right_boundary_rule_fired", "a right-boundary rule changed the original list");
+    ctx.require("synthetic_hyphen_rule_at_a_cut", "the program has a rule (letter, '-') for the letter before an expected hyphen");
+    ctx.require("synthetic_program_with_loop_skipped", "programs with an infinite ligature loop were met and skipped");
+    {
+        let m = WITNESSES.lock().unwrap();
+        let v: Vec<Value> = m.iter().map(|(k, (n, _, w))| json!({"label": k, "cases": n, "first": w})).collect();
+        ctx.extra("failure_labels_with_first_witness", json!(v));
+        // one replayable witness per failure label (the six replay files written by `finish` are the
+        // six smallest indices, which usually belong to one label)
+        if ctx.replay.is_none() && ctx.only_family.is_none() {
+            let dir = std::path::PathBuf::from(std::env::var("VERIF_OUT").unwrap_or_else(|_| "/verif".into())).join("replays");
+            let _ = std::fs::create_dir_all(&dir);
+            if let Ok(rd) = std::fs::read_dir(&dir) {
+                for e in rd.flatten() {
+                    if e.file_name().to_string_lossy().starts_with("C14w-") {
+                        let _ = std::fs::remove_file(e.path());
+                    }
+                }
+            }
+            for (k, (label, (_, _, w))) in m.iter().filter(|(l, _)| !l.starts_with("outside")).enumerate() {
+                let path = dir.join(format!("C14w-{}.json", k + 1));
+                let _ = std::fs::write(&path, serde_json::to_string_pretty(&json!({"property": "C14", "family": "", "case": w["case"], "note": label, "replay": format!("./check C14 --replay {}", path.display())})).unwrap());
+            }
+        }
+    }
+    ctx.finish("one evaluation = one list (text typeset in a font, then hyphenated) judged by three invariants: (1) deleting the inserted discretionaries restores the list node for node, (2) letters are conserved at every inserted discretionary, (3) the inserted discretionaries sit at exactly the positions Liang's patterns allow within the minima, with TeX's first-odd-position-per-ligature restriction, in exactly the words TeX's word finder selects; non-trivial = at least one hyphen is expected in the list");
+}
+
+fn run_synthetic(idx: u64, rules: &[Rule], words: &[String], templates: &[&str], mins: &[(i32, i32)], env: &Env, acc: &mut Acc) {
+    let Some(font) = synthetic_font(env, rules) else {
+        acc.skipped += 1;
+        acc.count("synthetic_program_with_loop_skipped");
+        return;
+    };
+    for &(l, r) in mins {
+        let hy = real_hyphenator(env, &font, "every_ab", l, r);
+        for w in words {
+            for t in templates {
+                let case = Case { program: rules.to_vec(), text: t.replace("{}", w), patterns: "every_ab".into(), lhm: l, rhm: r };
+                // counters from the case: does a boundary / hyphen rule touch this text?
+                let first = w.as_bytes()[0];
+                let last = *w.as_bytes().last().unwrap();
+                if rules.iter().any(|r| r.left == Sym::LB && r.right == Sym::C(first)) && !t.starts_with("x -{") && !t.starts_with("x .{") {
+                    acc.count("synthetic_left_boundary_rule_fired");
+                }
+                if rules.iter().any(|r| r.right == Sym::RB && r.left == Sym::C(last)) && (t.ends_with("{}")) {
+                    acc.count("synthetic_right_boundary_rule_fired");
+                }
+                if rules.iter().any(|r| r.right == Sym::C(b'-') && matches!(r.left, Sym::C(c) if w.as_bytes()[..w.len() - 1].contains(&c))) {
+                    acc.count("synthetic_hyphen_rule_at_a_cut");
+                }
+                judge(idx, &case, &font, &hy, &env.every_ab, acc);
+            }
+        }
+    }
+    if idx % 9973 == 1 {
+        acc.sample(idx, || json!({"program": rules.iter().map(|r| r.compact()).collect::<Vec<_>>()}));
+    }
+}
+
+// ---------------------------------------------------------------- model self-validation
+
+// generated from crates/boxworks-hyphenate/src/lib.rs (tests verified against TeX with TEXCRAFT_VERIFY=tex)
+const TEX_VERIFIED: &[(&str, &str, &[&str], &str, Option<&str>, i32)] = &[
+    ("no_hyphens", "mint", &[], "c:m c:i c:n c:t", None, 1),
+    ("most_simple_case", "a-b", &[], "c:a d[c:-||0] c:b", None, 1),
+    ("lig_1", "a-b", &["ab -> axb^"], "d[c:a c:-||2] c:a l:x<> c:b", None, 1),
+    ("lig_with_hyphen", "a-b", &["a- -> ax-^"], "d[c:a l:x<> c:-||1] c:a c:b", None, 1),
+    ("lig_with_hyphen_and_letters", "a-b", &["a- -> ax-^", "ab -> ac^_"], "d[c:a l:x<> c:-|c:b|2] c:a l:c<b>", None, 1),
+    ("left_boundary_char_1", "a-b", &["|b -> |c^_"], "c:a d[c:-|l:c<b>L|1] c:b", None, 1),
+    ("left_boundary_char_2", "a-b", &["|d -> |c^_"], "c:a d[c:-||0] c:b", None, 1),
+    ("left_boundary_char_and_pre_break_1", "a-b", &["|- -> |c^_"], "c:a d[c:-||0] c:b", None, 1),
+    ("left_boundary_char_and_pre_break_2", "ab-c", &["bc -> _z^_", "|b -> |d^_"], "c:a d[c:b c:-|c:c|1] l:z<bc>", None, 1),
+    ("pre_break_lig_kern_starts_from_separation_point", "abc-d", &["ab -> ax^_", "xc -> _y^_", "yd -> _z^_"], "d[c:a l:y<bc> c:-|c:d|2] c:a l:z<bcd>", None, 1),
+    ("right_boundary_char_after_hyphen", "a-b", &["-| -> -c^|"], "c:a d[c:- l:c<>R||0] c:b", None, 1),
+    ("big_lig_1", "a-bc", &["ab -> _x^_", "xc -> _y^_"], "d[c:a c:-|c:b c:c|1] l:y<abc>", None, 1),
+    ("big_lig_2", "a-bc", &["ab -> _x^_", "xc -> _y^_", "bc -> _z^_"], "d[c:a c:-|l:z<bc>|1] l:y<abc>", None, 1),
+    ("big_lig_3", "ab-c", &["ab -> _x^_", "xc -> _y^_"], "d[l:x<ab> c:-|c:c|1] l:y<abc>", None, 1),
+    ("big_lig_4", "ab-c", &["ab -> ax^_"], "c:a l:x<b> d[c:-||0] c:c", None, 1),
+    ("big_lig_with_hyphen", "ab-c", &["ab -> ax^_", "x- -> xy^-"], "d[c:a l:x<b> l:y<> c:-||2] c:a l:x<b> c:c", None, 1),
+    ("big_lig_with_hyphen_2", "ab-c", &["ab -> ax^b", "x- -> xy^-"], "c:a l:x<> c:b d[c:-||0] c:c", None, 1),
+    ("empty_lig_before", "a-b", &["ab -> ax^b"], "d[c:a c:-||2] c:a l:x<> c:b", None, 1),
+    ("simple_kern", "a-b", &["ab -> a[100]b"], "d[c:a c:-||2] c:a k c:b", None, 1),
+    ("same_kern", "a-b", &["ab -> a[100]b", "a- -> a[100]-"], "d[c:a k c:-||2] c:a k c:b", None, 1),
+    ("synchronization_1", "a-bcdefgh", &["ab -> _x^_", "bc -> _y^_", "cd -> _z^_", "de -> _w^_", "ef -> _v^_"], "d[c:a c:-|l:y<bc> l:w<de> c:f|3] l:x<ab> l:z<cd> l:v<ef> c:g c:h", None, 1),
+    ("synchronization_2", "a-bcd-ef-gh", &["ab -> _x^_", "bc -> _y^_", "cd -> _z^_", "de -> _w^_", "ef -> _v^_"], "d[c:a c:-|l:y<bc> l:w<de> c:f|3] l:x<ab> l:z<cd> l:v<ef> d[c:-||0] c:g c:h", None, 1),
+    ("synchronization_3", "a-bcde", &["ab -> _x^_", "bc -> _y^_", "xc -> _y^_", "yd -> yzd^"], "d[c:a c:-|l:y<bc> l:z<>|2] l:y<abc> l:z<> c:d c:e", None, 1),
+    ("word_ends_in_comma_1", "baby,", &["y, -> y[100],", "y| -> y[200]|"], "c:b c:a c:b c:y k c:,", Some("baby"), 1),
+    ("word_ends_in_comma_2", "baby,", &["y, -> y[100],", "y| -> y[200]|"], "c:b c:a d[c:-||0] c:b c:y k c:,", Some("ba-by"), 1),
+    ("right_boundary_char_override_1", "ba-by", &["y| -> y.^|"], "c:b c:a d[c:-||0] c:b c:y l:.<>R", None, 1),
+    ("right_boundary_char_override_2", "ab.", &["|b -> |c^_", "c. -> c,^_"], "c:a d[c:-|l:c<b>L l:,<>R|1] c:b c:.", Some("a-b"), 1),
+    ("right_boundary_char_override_3", "journey.", &["y. -> y^,_", ",| -> ,?^|"], "c:j c:o c:u c:r d[c:-||0] c:n c:e c:y l:,<>R l:,<.> l:?<>R", Some(""), 1),
+    ("right_boundary_char_override_4", "journey.", &["y. -> y^,_", "y, -> y^?_"], "c:j c:o c:u c:r d[c:-||0] c:n c:e c:y l:?<>R l:?<.>", Some(""), 1),
+    ("right_boundary_char_override_5", "journey.", &["y. -> y,^_"], "c:j c:o c:u c:r d[c:-||0] c:n c:e c:y l:,<>R l:,<.>", Some(""), 1),
+    ("right_boundary_char_override_6", "journey.", &["y. -> y^,_", "y, -> y^?,"], "c:j c:o c:u c:r d[c:-||0] c:n c:e c:y l:?<> l:,<>R l:,<.>", Some(""), 1),
+    ("sneezing", "sneezing", &["y. -> y^,_", "y, -> y^?,"], "c:s c:n c:e c:e c:z d[c:-||0] c:i c:n c:g", Some(""), 3),
+    ("difficult", "d-if-fi-cult", &["ff -> _0^_", "0i -> _1^_"], "c:d c:i d[c:f c:-|c:f c:i|1] l:1<ffi> d[c:-||0] c:c c:u c:l c:t", Some(""), 3),
+];
+
+/// The compact rule notation of the repository's tests (`tfm::ligkern::lang::Operation::parse_compact`):
+/// `ab -> a[100]b` kern; `ab -> axb^` ligature: left or `_`, inserted, right or `_`, `^` after the
+/// character the cursor ends on; `|` as left = left boundary, as right = the boundary character.
+fn parse_compact_rule(line: &str) -> (Option<char>, char, LkOp) {
+    let (lhs, rhs) = line.split_once("->").expect("rule has ->");
+    let lhs: Vec<char> = lhs.trim().chars().collect();
+    let rhs = rhs.trim();
+    let left = if lhs[0] == '|' { None } else { Some(lhs[0]) };
+    let right = lhs[1];
+    if rhs.contains('[') {
+        return (left, right, LkOp::Kern(rhs[rhs.find('[').unwrap() + 1..rhs.find(']').unwrap()].parse::<i64>().unwrap()));
+    }
+    let mut chars: Vec<char> = vec![];
+    let mut cursor = 0;
+    for c in rhs.chars() {
+        if c == '^' {
+            cursor = chars.len() - 1;
+        } else {
+            chars.push(c);
+        }
+    }
+    let (keep_l, keep_r) = (chars[0] != '_', chars[2] != '_');
+    let kind = match (keep_l, keep_r, cursor) {
+        (false, false, 1) => 0,
+        (false, true, 1) => 1,
+        (false, true, 2) => 5,
+        (true, false, 0) => 2,
+        (true, false, 1) => 6,
+        (true, true, 0) => 3,
+        (true, true, 1) => 7,
+        (true, true, 2) => 11,
+        other => panic!("bad compact rule {line}: {other:?}"),
+    };
+    (left, right, LkOp::Lig { kind, ch: chars[1] })
+}
+
+/// The repository's TeX-verified expectations replayed through the model: for each of the 33 cases the
+/// list is typeset by the model's cursor machine, hyphenated by the transliterated pass (§894-918)
+/// with plain TeX's patterns plus the case's `\hyphenation` entry, and compared node for node with
+/// what TeX produced.
+fn self_validate(ctx: &mut Ctx, env: &Env) {
+    let mut ok = 0;
+    for (name, input, program, want, patterns, lhm) in TEX_VERIFIED {
+        let mut font = LkFont::default();
+        for line in *program {
+            let r = parse_compact_rule(line);
+            if r.1 == '|' {
+                font.bchar = Some('|');
+            }
+            font.rules.push(r);
+        }
+        let word: Vec<char> = input.chars().filter(|c| *c != '-').collect();
+        let mut list = liang::typeset_run(&font, &['x']);
+        list.push(TNode::Other(Node::Glue));
+        list.extend(liang::typeset_run(&font, &word));
+        let mut lang = env.plain.clone();
+        for e in patterns.unwrap_or(input).split_whitespace() {
+            lang.add_exception(e, &ascii_lc);
+        }
+        let hyf_fn = |w: &[char]| lang.hyf(w);
+        let pp = liang::PassParams { hyf: &hyf_fn, lc: &ascii_lc, uc_hyph: true, l_hyf: liang::norm_min(*lhm as i64), r_hyf: 1, hyphen_char: '-', always_left_boundary: false, always_rebuild: false, ignore_left_context: false };
+        let got = match catch(|| liang::hyphenate_list(&list, &font, &pp)) {
+            Ok(g) => liang::render(&g[2.min(g.len())..]),
+            Err(p) => format!("model panicked: {}", p.describe()),
+        };
+        if got == *want {
+            ok += 1;
+        } else {
+            ctx.machinery_error(format!("model self-validation (boxworks-hyphenate test {name}): TeX gives [{want}], the model gives [{got}] from [{}]", liang::render(&list)));
+        }
+    }
+    ctx.extra("model_self_validation", json!({"tex_verified_cases_reproduced_by_the_model": ok, "of": TEX_VERIFIED.len()}));
+    // word finder: word_ends_in_comma: "baby" kern "," -> word baby, hb = the kern, bchar = ','
+    let fp = liang::FinderParams { lc: &ascii_lc, uc_hyph: true, l_hyf: 1, r_hyf: 1, hyphen_char_ok: &|_| true };
+    let ch = |c: char| Node::Char { c, font: 0 };
+    let mut list = vec![ch('x'), Node::Glue];
+    list.extend("baby".chars().map(ch));
+    list.push(Node::Kern { normal: true });
+    list.push(ch(','));
+    match liang::words(&list, &fp).as_slice() {
+        [w] if w.letters == vec!['b', 'a', 'b', 'y'] && w.hb == 6 && w.bchar == liang::Bchar::Char(',') && w.ha == 1 => {}
+        other => ctx.machinery_error(format!("word finder self-validation (word_ends_in_comma): {other:?}")),
+    }
 }
